@@ -249,7 +249,7 @@ pub fn observe(bytes: Vec<u8>) -> String {
     out
 }
 
-/// `pairhex <design> <file a hex> <file b hex>`: `<observation a>#<observation b>`
+/// `pairhex <design> <file hex>...`: the observations of all files joined by `#`
 pub fn pairhex(toks: &[&str]) -> String {
-    format!("{}#{}", observe(hex_bytes(toks[2])), observe(hex_bytes(toks[3])))
+    toks[2..].iter().map(|h| observe(hex_bytes(h))).collect::<Vec<_>>().join("#")
 }
